@@ -208,7 +208,7 @@ def run(ctx):
                 n_ex += 1
         ctx.tables[f'chains depth {depth}: Manifest absent/plain/IGNOREs-the-path at every level x every start'] = {
             'size': n_ex, 'exhaustive': True, 'ok': True}
-        for i in range(400 if ctx.tier == 'quick' else 8000):
+        for i in range(1000 if ctx.tier == 'quick' else 8000):
             depth = rng.randint(1, 6)
             chain = [rng.choice(NAMES) for _ in range(depth)]
             start = rng.randint(0, depth)
